@@ -358,6 +358,16 @@ def main(only=None):
                 src = os.path.join(d, fn)
                 if os.path.isfile(src) and os.path.getsize(src) < 200000 and not fn.endswith(('.so', '.o', '.bin')) and '.' in fn:
                     shutil.copy(src, os.path.join(dst, fn))
+            # helpers the agent kept one directory up are copied next to the demo (only the path line of the demo is adapted)
+            parent_common = os.path.join(os.path.dirname(d), 'common.py')
+            for demo_name in ('demo.py', 'after_search.py'):
+                dp = os.path.join(dst, demo_name)
+                if os.path.exists(parent_common) and os.path.exists(dp):
+                    txt = open(dp).read()
+                    pat = 'os.path.dirname(os.path.dirname(os.path.abspath(__file__)))'
+                    if pat in txt:
+                        shutil.copy(parent_common, os.path.join(dst, 'common.py'))
+                        open(dp, 'w').write(txt.replace(pat, 'os.path.dirname(os.path.abspath(__file__))'))
             checks = [prop] + EXTRA.get(sid, [])
             r = subprocess.run([os.path.join(VERIF, 'tools', 'try_seed.py'), dst] + checks, capture_output=True, text=True)
             try:
